@@ -60,9 +60,6 @@ def boundary(leaf: nf.Leaf, lit: Lit):
         c = const_term(leaf)
         if c is not None and c != lit.const:
             p, _ = leaf.cmp()
-            # PCTSP-style: the threshold may come from a state cell instead of the literal 1
-            if lit.name == "min-prize" and "prize_required" in sided_atoms(p)[1]:
-                return res, why
             if c > lit.const:
                 return "looser", f"constant term {float(c)} > {lit.const}: threshold shifted to the lenient side"
             return ("tighter" if res != "looser" else res), f"constant term {float(c)} < {lit.const}: threshold shifted to the strict side"
